@@ -48,3 +48,25 @@ def scratch(prefix="vf"):
 
 def rm(d):
     shutil.rmtree(d, ignore_errors=True)
+
+
+def cleanup_now():
+    """Pool workers leave through os._exit (no atexit): shards call this explicitly."""
+    _cleanup()
+    del _SCRATCH[:]
+
+
+def sweep_stale(base="/dev/shm"):
+    """Remove scratch directories of processes that no longer exist (killed runs)."""
+    import re
+    try:
+        names = os.listdir(base)
+    except OSError:
+        return 0
+    n = 0
+    for name in names:
+        m = re.match(r"vf\w*-(\d+)-", name)
+        if m and not os.path.exists(f"/proc/{m.group(1)}"):
+            shutil.rmtree(os.path.join(base, name), ignore_errors=True)
+            n += 1
+    return n
